@@ -115,6 +115,18 @@ class RepoFunc:
         walk(self.node)
         return out
 
+    def loop_signature(self):
+        """what the contracts' loop invariants are attached to: the loops of the function in order, each as its kind and the names it
+        binds (NOT its bounds: a changed bound is a change the invariants must judge, a removed / added / re-targeted loop is a
+        change of structure under which invariants numbered by position no longer talk about the same loop)"""
+        sig = []
+        for n in self.loops():
+            if isinstance(n, ast.For):
+                sig.append("for " + ast.unparse(n.target))
+            else:
+                sig.append("while")
+        return sig
+
     def __repr__(self):
         return "<RepoFunc %s>" % self.key
 
